@@ -131,6 +131,9 @@ class C01Spec(explore.Spec):
         out = [{"version": v, "transport": tr, "cb": "record"} for v, tr in pairs]
         if tier == "thorough":
             out += [{"version": v, "transport": "serial", "flavour": "async", "cb": "record"} for v in ("1.4", "2.2")]
+            # one configuration is explored a level deeper (the probe corpus makes every state expensive)
+            for cfg in out:
+                cfg["depth"] = 3 if (cfg["version"], cfg["transport"], cfg.get("flavour")) == ("2.2", "serial", None) else 2
         return out
 
     def alphabet(self, cfg):
@@ -252,7 +255,7 @@ def run(tier):
     if tier == "quick":
         explore.run(spec, report, tier, 2, 100000, 200)
     else:
-        explore.run(spec, report, tier, 4, 400000, 3000)
+        explore.run(spec, report, tier, 3, 2000000, 9000)
     for viol in list(report.violations.values()):
         if viol.replay and viol.replay.get("kind") == "history" and not explore.confirm(spec, viol):
             raise HarnessError(f"violation {viol.signature} did not reproduce from its replay data")
